@@ -267,102 +267,7 @@ pub fn run(ctx: &mut Ctx) {
         acc.nontrivial += 1;
     });
 
-    // binary decoding of raw integers
-    let mut raws: Vec<(Ty, i64)> = Vec::new();
-    for ty in ALL_TYPES {
-        let (lo, hi): (i128, i128) = match ty {
-            Ty::Date => (rg::DATE_MIN, rg::DATE_MAX), Ty::Time => (rg::TIME_MIN, rg::TIME_MAX), Ty::Timestamp => (rg::TS_MIN, rg::TS_MAX),
-            Ty::IntervalYM => (-rg::YM_MAX, rg::YM_MAX), Ty::IntervalDT => (-rg::DT_MAX, rg::DT_MAX), Ty::OracleDate => (rg::OD_MIN, rg::OD_MAX),
-        };
-        let (tmin, tmax) = match ty { Ty::Date | Ty::IntervalYM => (i32::MIN as i64, i32::MAX as i64), _ => (i64::MIN, i64::MAX) };
-        for v in [lo as i64, lo as i64 - 1, lo as i64 + 1, hi as i64, hi as i64 + 1, hi as i64 - 1, 0, 1, -1, tmin, tmin + 1, tmax, tmax - 1] {
-            if v >= tmin && v <= tmax { raws.push((ty, v)); }
-        }
-        if ty == Ty::OracleDate {
-            for base in [0i64, -US_SEC, rg::OD_MAX as i64, rg::OD_MIN as i64, 951_782_400_000_000] {
-                for f in [1i64, 500_000, 999_999, -1, -999_999] { raws.push((ty, base + f)); }
-            }
-            raws.push((ty, rg::TS_MAX as i64));
-        }
-    }
-    let raws_r = &raws;
-    let r = ctx.sweep_each("binary_decode_raw_integers", "for each type every raw integer at the range limits +/-1, 0, +/-1 and the integer extremes (OracleDate: also sub-second payloads) through bincode: Ok(same value) iff in range, else Err", raws.len() as u64, 16, |idx, acc| {
-        let (ty, raw) = raws_r[idx as usize];
-        acc.states += 1;
-        acc.t(1);
-        acc.traces += 1;
-        let valid = in_range(ty, raw as i128);
-        let got = guard(|| bin_decode(ty, &raw_bytes(ty, raw)));
-        let ok = match &got { Ok(Ok(v)) => valid && *v == raw, Ok(Err(_)) => !valid, Err(()) => false };
-        if valid { acc.cls("decoded_in_range") } else { acc.cls("rejected_out_of_range"); acc.nontrivial += 1; }
-        if !ok {
-            let kind = if matches!(got, Ok(Ok(_))) && !valid { "yields-out-of-range-value" } else if got.is_err() { "panic" } else { "rejects-valid-payload" };
-            acc.fail(&format!("C15:binary-decode:{kind}"), idx, || (format!("bincode::deserialize::<{ty:?}>({raw} as raw little-endian integer)"), if valid { format!("Ok({raw})") } else { "Err".into() }, format!("{got:?}"),
-                format!("let r: Result<{ty:?}, _> = bincode::deserialize(&({raw}{}).to_le_bytes());", if matches!(ty, Ty::Date | Ty::IntervalYM) { "i32" } else { "i64" })));
-        }
-    });
-    ctx.require(&r, &["decoded_in_range", "rejected_out_of_range"]);
-
-    // typed scalars through serde's value deserializers: an integer of ANY width must decode to exactly
-    // that count (when in range) or fail; nothing else may yield an out-of-range / sub-second value
-    let ints: Vec<i128> = {
-        let mut v: Vec<i128> = vec![0, 1, -1, 5, 1_500_000, -1_500_000, 999_999, 1_000_000, 86_399_999_999, 86_400_000_000, i8::MAX as i128, i16::MAX as i128, i16::MIN as i128,
-            i32::MAX as i128, i32::MIN as i128, u32::MAX as i128, (1i128 << 32) + 5, (1i128 << 32) + 10, (1i128 << 33) - 7, i64::MAX as i128, i64::MIN as i128, u64::MAX as i128, u64::MAX as i128 - 999_999,
-            (1i128 << 63) + 1_000_000, rg::DATE_MAX, rg::DATE_MIN, rg::DATE_MAX + 1, rg::TS_MAX, rg::TS_MAX + 1, rg::TS_MIN, rg::TS_MIN - 1, rg::OD_MAX, rg::OD_MAX + 1, rg::YM_MAX, rg::YM_MAX + 1, -rg::YM_MAX - 1, rg::DT_MAX, rg::DT_MAX + 1, -rg::DT_MAX - 1];
-        v.sort();
-        v.dedup();
-        v
-    };
-    let ints_r = &ints;
-    let r = ctx.sweep_each("typed_scalars_through_value_deserializers", "integers of every width (i8..i64, u8..u64), floats, bools, unit, bytes, borrowed / owned strings handed over by serde's value deserializers, for each type: Ok(n) only for the exact in-range count, otherwise Err", ints.len() as u64 * 6, 8, |idx, acc| {
-        use serde::de::value::{Error as VE, *};
-        use serde::de::IntoDeserializer;
-        let ty = ALL_TYPES[(idx % 6) as usize];
-        let n = ints_r[(idx / 6) as usize];
-        acc.states += 1;
-        let mut outcomes: Vec<(&'static str, Result<Result<i64, String>, ()>)> = Vec::new();
-        macro_rules! try_int { ($t:ty, $name:expr) => { if let Ok(x) = <$t>::try_from(n) { let d: <$t as IntoDeserializer<'_, VE>>::Deserializer = x.into_deserializer(); outcomes.push(($name, guard(|| value_decode(ty, d)))); } }; }
-        try_int!(i8, "i8"); try_int!(i16, "i16"); try_int!(i32, "i32"); try_int!(i64, "i64"); try_int!(u8, "u8"); try_int!(u16, "u16"); try_int!(u32, "u32"); try_int!(u64, "u64");
-        for (name, got) in outcomes {
-            acc.t(1);
-            acc.traces += 1;
-            match got {
-                Ok(Ok(v)) => {
-                    if v as i128 == n && in_range(ty, n) { acc.cls("decoded_in_range") } else {
-                        acc.fail("C15:value-deserializer:integer-decodes-to-wrapped-or-out-of-range-value", idx, || (format!("{ty:?}::deserialize({n}{name}.into_deserializer())"), if in_range(ty, n) { format!("Ok({n}) or Err") } else { "Err".into() }, format!("Ok({v})"), String::new()));
-                    }
-                }
-                Ok(Err(_)) => { acc.cls("rejected"); acc.nontrivial += 1; }
-                Err(()) => acc.fail("C15:value-deserializer:panic", idx, || (format!("{ty:?}::deserialize({n}{name}.into_deserializer())"), "value or error".into(), "panic".into(), String::new())),
-            }
-        }
-        if idx < 6 {
-            // non-integer scalars: whatever comes back must be a valid value of the type
-            let mut others: Vec<(&'static str, Result<Result<i64, String>, ()>)> = Vec::new();
-            others.push(("f64", guard(|| value_decode(ty, F64Deserializer::<VE>::new(1.5e6)))));
-            others.push(("bool", guard(|| value_decode(ty, BoolDeserializer::<VE>::new(true)))));
-            others.push(("unit", guard(|| value_decode(ty, UnitDeserializer::<VE>::new()))));
-            others.push(("char", guard(|| value_decode(ty, CharDeserializer::<VE>::new('1')))));
-            for b in [&b""[..], &[0u8; 7][..], &[120, 121, 4, 22, 1, 1, 1][..], &[0xffu8; 8][..], &[1u8, 0, 0, 0][..], &[0x60, 0xe3, 0x16, 0, 0, 0, 0, 0][..]] {
-                others.push(("bytes", guard(|| value_decode(ty, BytesDeserializer::<VE>::new(b)))));
-                others.push(("borrowed bytes", guard(|| value_decode(ty, BorrowedBytesDeserializer::<VE>::new(b)))));
-            }
-            for sdoc in ["", "1", "1500000", "2021-04-22", "2021-04-22 13:07:09", "2021-04-22 13:07:09.123456", "13:07:09.123456", "+0001-05", "+01 02:03:04.000005"] {
-                others.push(("str", guard(|| value_decode(ty, StrDeserializer::<VE>::new(sdoc)))));
-                others.push(("borrowed str", guard(|| value_decode(ty, BorrowedStrDeserializer::<VE>::new(sdoc)))));
-                others.push(("string", guard(|| value_decode(ty, StringDeserializer::<VE>::new(sdoc.to_string())))));
-            }
-            for (name, got) in others {
-                acc.t(1);
-                match got {
-                    Ok(Ok(v)) => { if in_range(ty, v as i128) { acc.cls("decoded_in_range") } else { acc.fail("C15:value-deserializer:yields-out-of-range-value", idx, || (format!("{ty:?}::deserialize(<{name}>)"), "Err or an in-range value".into(), format!("Ok({v})"), String::new())) } }
-                    Ok(Err(_)) => acc.cls("rejected"),
-                    Err(()) => acc.fail("C15:value-deserializer:panic", idx, || (format!("{ty:?}::deserialize(<{name}>)"), "value or error".into(), "panic".into(), String::new())),
-                }
-            }
-        }
-    });
-    ctx.require(&r, &["rejected"]);
+    decode_integers(ctx, "C15", false);
 
     // JSON: complete single-edit neighbourhood of canonical strings
     let symbols: Vec<&str> = vec!["0", "1", "2", "3", "5", "9", "-", "+", ":", ".", " ", "T", "/", ",", "A", "e", "x", "\\\\", "\\u00e9", ""];
@@ -416,4 +321,120 @@ pub fn run(ctx: &mut Ctx) {
         }
     });
     ctx.require(&r, &["decoded_in_range", "rejected"]);
+}
+
+/// Decoding of raw integers (bincode) and of typed scalars (serde's value deserializers).
+///
+/// `strict == false` (C15): a payload that is the encoding of a value decodes to that value (round trip);
+/// any other payload fails or yields *some* value inside the documented range (whole seconds for the
+/// Oracle-style date).  `strict == true` (C02: "a mathematically out-of-range result is reported as an error,
+/// never as a wrapped, clamped or otherwise invalid value"): in addition a decoded value must be the number
+/// that was handed over (for the Oracle-style date: that instant floored to its second).
+pub fn decode_integers(ctx: &mut Ctx, prop: &'static str, strict: bool) {
+    let floor_sec = |n: i128| n.div_euclid(US_SEC as i128) * US_SEC as i128;
+    // is Ok(v) an admissible decoding of the integer n for this type?
+    let admissible = move |ty: Ty, n: i128, v: i128| -> bool {
+        if !in_range(ty, v) { return false; }
+        if in_range(ty, n) { return v == n; }
+        if !strict { return true; }
+        ty == Ty::OracleDate && n >= rg::TS_MIN && n <= rg::TS_MAX && v == floor_sec(n)
+    };
+    // binary decoding of raw integers
+    let mut raws: Vec<(Ty, i64)> = Vec::new();
+    for ty in ALL_TYPES {
+        let (lo, hi): (i128, i128) = match ty {
+            Ty::Date => (rg::DATE_MIN, rg::DATE_MAX), Ty::Time => (rg::TIME_MIN, rg::TIME_MAX), Ty::Timestamp => (rg::TS_MIN, rg::TS_MAX),
+            Ty::IntervalYM => (-rg::YM_MAX, rg::YM_MAX), Ty::IntervalDT => (-rg::DT_MAX, rg::DT_MAX), Ty::OracleDate => (rg::OD_MIN, rg::OD_MAX),
+        };
+        let (tmin, tmax) = match ty { Ty::Date | Ty::IntervalYM => (i32::MIN as i64, i32::MAX as i64), _ => (i64::MIN, i64::MAX) };
+        for v in [lo as i64, lo as i64 - 1, lo as i64 + 1, hi as i64, hi as i64 + 1, hi as i64 - 1, 0, 1, -1, tmin, tmin + 1, tmax, tmax - 1] {
+            if v >= tmin && v <= tmax { raws.push((ty, v)); }
+        }
+        if ty == Ty::OracleDate {
+            for base in [0i64, -US_SEC, rg::OD_MAX as i64, rg::OD_MIN as i64, 951_782_400_000_000] {
+                for f in [1i64, 500_000, 999_999, -1, -999_999] { raws.push((ty, base + f)); }
+            }
+            raws.push((ty, rg::TS_MAX as i64));
+        }
+    }
+    let raws_r = &raws;
+    let r = ctx.sweep_each("binary_decode_raw_integers", "for each type every raw integer at the range limits +/-1, 0, +/-1 and the integer extremes (OracleDate: also sub-second payloads) through bincode: Ok(same value) when in range; otherwise Err or an in-range value (C02: Err, or the floored second for the Oracle-style date)", raws.len() as u64, 16, |idx, acc| {
+        let (ty, raw) = raws_r[idx as usize];
+        acc.states += 1;
+        acc.t(1);
+        acc.traces += 1;
+        let valid = in_range(ty, raw as i128);
+        let got = guard(|| bin_decode(ty, &raw_bytes(ty, raw)));
+        let ok = match &got { Ok(Ok(v)) => admissible(ty, raw as i128, *v as i128), Ok(Err(_)) => !valid, Err(()) => false };
+        if valid { acc.cls("decoded_in_range") } else { acc.cls("rejected_out_of_range"); acc.nontrivial += 1; }
+        if !ok {
+            let kind = match &got { Ok(Ok(v)) if !in_range(ty, *v as i128) => "yields-out-of-range-value", Ok(Ok(_)) if valid => "round-trip-changes-value", Ok(Ok(_)) => "wrapped-or-clamped-value", Err(()) => "panic", _ => "rejects-valid-payload" };
+            acc.fail(&format!("{prop}:binary-decode:{kind}"), idx, || (format!("bincode::deserialize::<{ty:?}>({raw} as raw little-endian integer)"), if valid { format!("Ok({raw})") } else if strict { "Err (Oracle-style date: or the instant floored to its second)".into() } else { "Err or a value inside the documented range".into() }, format!("{got:?}"),
+                format!("let r: Result<{ty:?}, _> = bincode::deserialize(&({raw}{}).to_le_bytes());", if matches!(ty, Ty::Date | Ty::IntervalYM) { "i32" } else { "i64" })));
+        }
+    });
+    ctx.require(&r, &["decoded_in_range", "rejected_out_of_range"]);
+
+    // typed scalars through serde's value deserializers: an integer of ANY width must decode to exactly
+    // that count (when in range) or fail; nothing else may yield an out-of-range / sub-second value
+    let ints: Vec<i128> = {
+        let mut v: Vec<i128> = vec![0, 1, -1, 5, 1_500_000, -1_500_000, 999_999, 1_000_000, 86_399_999_999, 86_400_000_000, i8::MAX as i128, i16::MAX as i128, i16::MIN as i128,
+            i32::MAX as i128, i32::MIN as i128, u32::MAX as i128, (1i128 << 32) + 5, (1i128 << 32) + 10, (1i128 << 33) - 7, i64::MAX as i128, i64::MIN as i128, u64::MAX as i128, u64::MAX as i128 - 999_999,
+            (1i128 << 63) + 1_000_000, rg::DATE_MAX, rg::DATE_MIN, rg::DATE_MAX + 1, rg::TS_MAX, rg::TS_MAX + 1, rg::TS_MIN, rg::TS_MIN - 1, rg::OD_MAX, rg::OD_MAX + 1, rg::YM_MAX, rg::YM_MAX + 1, -rg::YM_MAX - 1, rg::DT_MAX, rg::DT_MAX + 1, -rg::DT_MAX - 1];
+        v.sort();
+        v.dedup();
+        v
+    };
+    let ints_r = &ints;
+    let r = ctx.sweep_each("typed_scalars_through_value_deserializers", "integers of every width (i8..i64, u8..u64), floats, bools, unit, bytes, borrowed / owned strings handed over by serde's value deserializers, for each type: an in-range count decodes to itself or fails; anything else fails or yields an in-range value (C02: fails)", ints.len() as u64 * 6, 8, |idx, acc| {
+        use serde::de::value::{Error as VE, *};
+        use serde::de::IntoDeserializer;
+        let ty = ALL_TYPES[(idx % 6) as usize];
+        let n = ints_r[(idx / 6) as usize];
+        acc.states += 1;
+        let mut outcomes: Vec<(&'static str, Result<Result<i64, String>, ()>)> = Vec::new();
+        macro_rules! try_int { ($t:ty, $name:expr) => { if let Ok(x) = <$t>::try_from(n) { let d: <$t as IntoDeserializer<'_, VE>>::Deserializer = x.into_deserializer(); outcomes.push(($name, guard(|| value_decode(ty, d)))); } }; }
+        try_int!(i8, "i8"); try_int!(i16, "i16"); try_int!(i32, "i32"); try_int!(i64, "i64"); try_int!(u8, "u8"); try_int!(u16, "u16"); try_int!(u32, "u32"); try_int!(u64, "u64");
+        for (name, got) in outcomes {
+            acc.t(1);
+            acc.traces += 1;
+            match got {
+                Ok(Ok(v)) => {
+                    if admissible(ty, n, v as i128) { acc.cls("decoded_in_range") } else {
+                        let kind = if !in_range(ty, v as i128) { "yields-out-of-range-value" } else if in_range(ty, n) { "decodes-to-a-different-value" } else { "wrapped-or-clamped-value" };
+                        acc.fail(&format!("{prop}:value-deserializer:integer-{kind}"), idx, || (format!("{ty:?}::deserialize({n}{name}.into_deserializer())"), if in_range(ty, n) { format!("Ok({n}) or Err") } else if strict { "Err".into() } else { "Err or an in-range value".into() }, format!("Ok({v})"), String::new()));
+                    }
+                }
+                Ok(Err(_)) => { acc.cls("rejected"); acc.nontrivial += 1; }
+                Err(()) => acc.fail(&format!("{prop}:value-deserializer:panic"), idx, || (format!("{ty:?}::deserialize({n}{name}.into_deserializer())"), "value or error".into(), "panic".into(), String::new())),
+            }
+        }
+        if idx < 6 {
+            // non-integer scalars: whatever comes back must be a valid value of the type
+            let mut others: Vec<(&'static str, Result<Result<i64, String>, ()>)> = Vec::new();
+            others.push(("f64", guard(|| value_decode(ty, F64Deserializer::<VE>::new(1.5e6)))));
+            others.push(("bool", guard(|| value_decode(ty, BoolDeserializer::<VE>::new(true)))));
+            others.push(("unit", guard(|| value_decode(ty, UnitDeserializer::<VE>::new()))));
+            others.push(("char", guard(|| value_decode(ty, CharDeserializer::<VE>::new('1')))));
+            for b in [&b""[..], &[0u8; 7][..], &[120, 121, 4, 22, 1, 1, 1][..], &[0xffu8; 8][..], &[1u8, 0, 0, 0][..], &[0x60, 0xe3, 0x16, 0, 0, 0, 0, 0][..]] {
+                others.push(("bytes", guard(|| value_decode(ty, BytesDeserializer::<VE>::new(b)))));
+                others.push(("borrowed bytes", guard(|| value_decode(ty, BorrowedBytesDeserializer::<VE>::new(b)))));
+            }
+            for sdoc in ["", "1", "1500000", "2021-04-22", "2021-04-22 13:07:09", "2021-04-22 13:07:09.123456", "13:07:09.123456", "+0001-05", "+01 02:03:04.000005"] {
+                others.push(("str", guard(|| value_decode(ty, StrDeserializer::<VE>::new(sdoc)))));
+                others.push(("borrowed str", guard(|| value_decode(ty, BorrowedStrDeserializer::<VE>::new(sdoc)))));
+                others.push(("string", guard(|| value_decode(ty, StringDeserializer::<VE>::new(sdoc.to_string())))));
+            }
+            for (name, got) in others {
+                acc.t(1);
+                match got {
+                    Ok(Ok(v)) => { if in_range(ty, v as i128) { acc.cls("decoded_in_range") } else { acc.fail(&format!("{prop}:value-deserializer:yields-out-of-range-value"), idx, || (format!("{ty:?}::deserialize(<{name}>)"), "Err or an in-range value".into(), format!("Ok({v})"), String::new())) } }
+                    Ok(Err(_)) => acc.cls("rejected"),
+                    Err(()) => acc.fail(&format!("{prop}:value-deserializer:panic"), idx, || (format!("{ty:?}::deserialize(<{name}>)"), "value or error".into(), "panic".into(), String::new())),
+                }
+            }
+        }
+    });
+    ctx.require(&r, &["rejected"]);
+
 }
